@@ -7,8 +7,8 @@
 (***************************************************************************)
 EXTENDS RSL, Json, TLCExt
 
-CONSTANTS Known,       \* deviations listed in known_findings.jsonl
-          AsBuilt      \* deviations the current tree is believed to have (subset of Known)
+CONSTANTS Known,       \* deviations listed as findings for this property
+          AsBuilt      \* all deviations the current tree is believed to have (superset of Known)
 
 TL == ndJsonDeserialize("trace.ndjson")
 
@@ -48,7 +48,7 @@ Classify(c, q, obs) ==
     ELSE IF DOK(c, q, ob)
     THEN IF SameRes(q, ob, Impl(c, q, AsBuilt)) \/ SameRes(q, ob, Impl(c, q, {}))
          THEN [cls |-> "conform"] ELSE [cls |-> "safe"]
-    ELSE LET S == {d \in SUBSET Known : d # {} /\ SameRes(q, ob, Impl(c, q, d))} IN
+    ELSE LET S == {d \in SUBSET AsBuilt : d \cap Known # {} /\ SameRes(q, ob, Impl(c, q, d))} IN
          IF S # {} THEN [cls |-> "known", dev |-> CHOOSE d \in S : \A d2 \in S : Cardinality(d) <= Cardinality(d2)]
          ELSE [cls |-> "violation", why |-> "contradicts Layer D"]
 
